@@ -8,6 +8,7 @@ CONSTANTS
   TightCap = TRUE
   CopyArgs = TRUE
   HtmlDep = TRUE
+  LazyInit = FALSE
 VIEW View
 INVARIANT SharedReadOnly
 CHECK_DEADLOCK FALSE
